@@ -69,6 +69,25 @@ pub fn run_export(case: &Value) -> Value {
                 let on_disk = std::fs::read(l.join("circuit.qasm")).ok();
                 res.insert("symlink_dir".into(), json!({"ok": r4.is_ok(), "file_equal": on_disk.as_deref() == Some(s.as_bytes())}));
             }
+            // directory names that are not plain ASCII: blanks, non-ASCII UTF-8, and (Unix) bytes that are not valid UTF-8,
+            // next to a sibling whose name is the lossy rendering of the latter
+            #[cfg(unix)] {
+                use std::os::unix::ffi::OsStrExt;
+                let mut all_ok = true; let mut detail = vec![];
+                let names: Vec<std::ffi::OsString> = vec![
+                    std::ffi::OsString::from("with blank"), std::ffi::OsString::from("\u{dc}bung-\u{3b1}"),
+                    std::ffi::OsStr::from_bytes(b"\xDCbung").to_os_string(), std::ffi::OsStr::from_bytes(b"run\xFF").to_os_string()];
+                let decoy = root.join("run\u{FFFD}"); std::fs::create_dir_all(&decoy).unwrap();
+                for nm in names {
+                    let dd = root.join(&nm);
+                    if std::fs::create_dir_all(&dd).is_err() { continue; }          // a file system that refuses the name: nothing to check
+                    let r = circ.to_qasm(Some(&dd));
+                    let on_disk = std::fs::read(dd.join("circuit.qasm")).ok();
+                    let good = r.as_ref().ok() == Some(&s) && on_disk.as_deref() == Some(s.as_bytes()) && !decoy.join("circuit.qasm").exists();
+                    if !good { all_ok = false; detail.push(format!("{:?}: ok={} file_equal={}", nm, r.is_ok(), on_disk.as_deref() == Some(s.as_bytes()))); }
+                }
+                res.insert("odd_names".into(), json!({"ok": all_ok, "detail": detail}));
+            }
             let _ = std::fs::remove_dir_all(&root);
             json!({"r": "ok", "paths": res})
         }
